@@ -36,11 +36,15 @@ struct Case {
     n_committed: usize,
     poseidon: bool,
     mseed: u64,
+    /// pad every instance column with zeros up to the last usable row (the
+    /// statement then has maximal length: appended values fall outside it)
+    #[serde(default)]
+    pad_full: bool,
 }
 
 fn strategy(max_ops: usize) -> BoxedStrategy<Case> {
-    (knobs_strategy(max_ops), any::<u64>(), 1usize..=2, 0usize..=1, any::<bool>(), any::<u64>())
-        .prop_map(|(knobs, wseed, num_proofs, n_committed, poseidon, mseed)| Case { knobs, wseed, num_proofs, n_committed, poseidon, mseed })
+    (knobs_strategy(max_ops), any::<u64>(), 1usize..=2, 0usize..=1, any::<bool>(), any::<u64>(), proptest::bool::weighted(0.3))
+        .prop_map(|(knobs, wseed, num_proofs, n_committed, poseidon, mseed, pad_full)| Case { knobs, wseed, num_proofs, n_committed, poseidon, mseed, pad_full })
         .boxed()
 }
 
@@ -291,8 +295,18 @@ fn statement_mutations(st: &Statement, mseed: u64) -> Vec<(String, Statement)> {
 fn run(c: &Case, all_bits: bool) -> CaseResult {
     let spec = expand(&c.knobs);
     let n_committed = c.n_committed.min(spec.n_instance);
-    let plans: Vec<_> = (0..c.num_proofs).map(|i| build_plan(&spec, c.wseed.wrapping_add(i as u64 * 104729))).collect();
+    let mut plans: Vec<_> = (0..c.num_proofs).map(|i| build_plan(&spec, c.wseed.wrapping_add(i as u64 * 104729))).collect();
     let (pk, vk) = pv::keygen(&spec).map_err(|e| Failure::new("keygen-fails", format!("{e}; spec={spec:?}")))?;
+    if c.pad_full {
+        let usable = (1usize << spec.k) - (vk.cs().blinding_factors() + 1);
+        for pl in plans.iter_mut() {
+            for col in pl.instances.iter_mut() {
+                if col.len() < usable {
+                    col.resize(usable, F::ZERO);
+                }
+            }
+        }
+    }
     let instances: Vec<_> = plans.iter().map(|p| p.instances.clone()).collect();
     let st = pv::statement(&vk, &spec, &instances, n_committed);
     let (proof, log) = if c.poseidon {
@@ -366,6 +380,9 @@ fn run(c: &Case, all_bits: bool) -> CaseResult {
         }
     }
     let mut v = Verdict::of(true, format!("np{}/c{}/{}", c.num_proofs, n_committed, if c.poseidon { "poseidon" } else { "blake2b" }));
+    if c.pad_full {
+        v = v.with("instance-columns-full");
+    }
     for (k, n) in counts {
         v = v.with(format!("{k} x{}", if n >= 100 { "100+" } else if n >= 10 { "10+" } else { "1+" }));
     }
